@@ -2,6 +2,7 @@ package rules
 
 import (
 	"fmt"
+	"go/constant"
 	"go/token"
 	"go/types"
 	"sort"
@@ -37,9 +38,10 @@ func sumConsts(v ssa.Value) (k int64, hasLen bool, ok bool) {
 		}
 		return a + b, la || lb, true
 	case *ssa.Call:
-		if bi, ok := x.Common().Value.(*ssa.Builtin); ok && bi.Name() == "len" {
-			return 0, true, true
-		}
+		// len(...) or another computed value (a decoded length): the variable term
+		return 0, true, true
+	case *ssa.Parameter, *ssa.Extract, *ssa.Phi:
+		return 0, true, true
 	case *ssa.UnOp:
 		if x.Op == token.MUL {
 			// a loaded variable: treated as the variable term
@@ -71,58 +73,98 @@ func (c *Ctx) RCONFrame() []core.Ob {
 		width int64 // -1 dynamic
 		val   ssa.Value
 	}
-	var els []el
-	for _, b := range w.Blocks {
-		for _, in := range b.Instrs {
-			st, ok := in.(*ssa.Store)
-			if !ok {
-				continue
-			}
-			ia, ok := st.Addr.(*ssa.IndexAddr)
-			if !ok {
-				continue
-			}
-			al, ok := ia.X.(*ssa.Alloc)
-			if !ok {
-				continue
-			}
-			arr, ok := deref(al.Type()).Underlying().(*types.Array)
-			if !ok {
-				continue
-			}
-			if _, isIface := arr.Elem().Underlying().(*types.Interface); !isIface {
-				continue
-			}
-			idx, ok := constIntVal(ia.Index)
-			if !ok {
-				continue
-			}
-			mi, ok := st.Val.(*ssa.MakeInterface)
-			if !ok {
-				continue
-			}
-			e := el{idx: idx, width: -1, val: mi.X}
-			switch t := mi.X.Type().Underlying().(type) {
-			case *types.Basic:
-				switch t.Kind() {
-				case types.Int32, types.Uint32:
-					e.width = 4
-				case types.Int16, types.Uint16:
-					e.width = 2
-				case types.Int64, types.Uint64:
-					e.width = 8
-				case types.Int8, types.Uint8:
-					e.width = 1
+	widthOf := func(v ssa.Value) int64 {
+		switch t := v.Type().Underlying().(type) {
+		case *types.Basic:
+			switch t.Kind() {
+			case types.Int32, types.Uint32:
+				return 4
+			case types.Int16, types.Uint16:
+				return 2
+			case types.Int64, types.Uint64:
+				return 8
+			case types.Int8, types.Uint8:
+				return 1
+			case types.String:
+				if k, ok := v.(*ssa.Const); ok && k.Value != nil {
+					return int64(len(constantString(k)))
 				}
-			case *types.Slice:
-				if sl, ok := mi.X.(*ssa.Slice); ok {
-					if a, ok := deref(sl.X.Type()).Underlying().(*types.Array); ok {
-						e.width = a.Len()
+			}
+		case *types.Slice:
+			if sl, ok := v.(*ssa.Slice); ok {
+				if a, ok := deref(sl.X.Type()).Underlying().(*types.Array); ok {
+					return a.Len()
+				}
+			}
+		}
+		return -1
+	}
+	// the writer's code: WritePacket and the helpers of the package it was split into
+	wfns := c.withPkgCallees(w, 2)
+	var els, seq []el
+	for _, f := range wfns {
+		if strings.HasSuffix(core.FnName(f), ".ReadPacket") {
+			continue
+		}
+		for _, b := range f.Blocks {
+			for _, in := range b.Instrs {
+				switch x := in.(type) {
+				case *ssa.Store:
+					// form 1: the elements of a []any literal that a loop hands to binary.Write
+					ia, ok := x.Addr.(*ssa.IndexAddr)
+					if !ok {
+						continue
+					}
+					al, ok := ia.X.(*ssa.Alloc)
+					if !ok {
+						continue
+					}
+					arr, ok := deref(al.Type()).Underlying().(*types.Array)
+					if !ok {
+						continue
+					}
+					if _, isIface := arr.Elem().Underlying().(*types.Interface); !isIface {
+						continue
+					}
+					idx, ok := constIntVal(ia.Index)
+					if !ok {
+						continue
+					}
+					mi, ok := x.Val.(*ssa.MakeInterface)
+					if !ok {
+						continue
+					}
+					els = append(els, el{idx: idx, width: widthOf(mi.X), val: mi.X})
+				case *ssa.Call:
+					// form 2: a sequence of appends / writes, in program order
+					cc := x.Common()
+					cn := calleeName(cc)
+					add := func(width int64, v ssa.Value) {
+						seq = append(seq, el{idx: int64(len(seq)), width: width, val: v})
+					}
+					switch {
+					case cn == "encoding/binary.Write" && len(cc.Args) == 3:
+						if mi, ok := cc.Args[2].(*ssa.MakeInterface); ok {
+							add(widthOf(mi.X), mi.X)
+						}
+					case strings.HasPrefix(cn, "encoding/binary.(") && strings.Contains(cn, ").AppendUint") && len(cc.Args) >= 3:
+						wd := map[string]int64{"AppendUint16": 2, "AppendUint32": 4, "AppendUint64": 8}[cn[strings.LastIndex(cn, ".")+1:]]
+						add(wd, cc.Args[len(cc.Args)-1])
+					case cn == "builtin.append" && len(cc.Args) == 2:
+						if bt, ok := cc.Args[0].Type().Underlying().(*types.Slice); ok {
+							if eb, ok := bt.Elem().Underlying().(*types.Basic); ok && eb.Kind() == types.Uint8 {
+								add(widthOf(cc.Args[1]), cc.Args[1])
+							}
+						}
+					case (cn == "bytes.(Buffer).Write" || cn == "bytes.(Buffer).WriteString") && len(cc.Args) == 2:
+						add(widthOf(cc.Args[1]), cc.Args[1])
 					}
 				}
 			}
-			els = append(els, e)
 		}
+	}
+	if len(els) == 0 {
+		els = seq
 	}
 	sort.Slice(els, func(i, j int) bool { return els[i].idx < els[j].idx })
 	wo := mk("writer-layout", "WritePacket emits [int32 length][int32 id][int32 type][payload][2 zero bytes] and the length field counts exactly the bytes that follow it", w)
@@ -164,18 +206,37 @@ func (c *Ctx) RCONFrame() []core.Ob {
 	minC, maxC := int64(-1), int64(-1)
 	var lows []int64
 	trailer := int64(-1)
-	for _, b := range r.Blocks {
+	var rblocks []*ssa.BasicBlock
+	for _, f := range c.withPkgCallees(r, 2) {
+		if strings.HasSuffix(core.FnName(f), ".WritePacket") {
+			continue
+		}
+		rblocks = append(rblocks, f.Blocks...)
+	}
+	for _, b := range rblocks {
 		for _, in := range b.Instrs {
 			switch x := in.(type) {
 			case *ssa.If:
 				if cmp, ok := x.Cond.(*ssa.BinOp); ok {
 					if k, ok := constIntVal(cmp.Y); ok {
-						if _, isLoad := stripConv(cmp.X).(*ssa.UnOp); isLoad {
+						// the declared length: a 32-bit integer variable, parameter or decoded value
+						isLen32 := false
+						if bt, ok := cmp.X.Type().Underlying().(*types.Basic); ok && (bt.Kind() == types.Int32 || bt.Kind() == types.Uint32) {
+							switch stripConv(cmp.X).(type) {
+							case *ssa.UnOp, *ssa.Parameter, *ssa.Call, *ssa.Extract:
+								isLen32 = true
+							}
+						}
+						if isLen32 {
 							switch cmp.Op {
 							case token.LSS:
 								minC = k
 							case token.GTR:
 								maxC = k
+							case token.LEQ:
+								minC = k + 1
+							case token.GEQ:
+								maxC = k - 1
 							}
 						}
 					}
@@ -226,7 +287,7 @@ func (c *Ctx) RCONFrame() []core.Ob {
 	// ---- byte order: little-endian everywhere in the RCON codec
 	eo := core.Ob{Rule: "T-ENDIAN", Key: "rcon:little-endian", Want: "every encoding/binary use in the RCON reader and writer is little-endian", Armed: true, Status: core.OK, Pos: c.P.Pos(w.Pos())}
 	n := 0
-	for _, fn := range []*ssa.Function{w, r} {
+	for _, fn := range append(c.withPkgCallees(w, 2), c.withPkgCallees(r, 2)...) {
 		for _, b := range fn.Blocks {
 			for _, in := range b.Instrs {
 				ci, ok := in.(ssa.CallInstruction)
@@ -249,9 +310,16 @@ func (c *Ctx) RCONFrame() []core.Ob {
 			}
 		}
 	}
-	if n < 4 {
+	if n < 2 {
 		eo.Status, eo.Got = core.Violated, fmt.Sprintf("only %d encoding/binary uses found", n)
 	}
 	obs = append(obs, eo)
 	return obs
+}
+
+func constantString(k *ssa.Const) string {
+	if k.Value == nil || k.Value.Kind() != constant.String {
+		return ""
+	}
+	return constant.StringVal(k.Value)
 }
